@@ -11,16 +11,19 @@ CHECKS = {
             "real code and compared bit-for-bit with the spec; re-encoding must be identical.", "3 C01"),
     "C02": ("bounded-exhaustive shape-space exploration; size oracle after every builder transition",
             "nBytes = written = consumed at block level and, through per-item growth, at nested-item level for every "
-            "builder state; plus the 8 blocks of the BTS capture against the jump table.", "3 C02"),
+            "builder state (also decoding the same state with every padding byte filled); the 8 blocks of the BTS capture against the "
+            "jump table; edge inputs (text of field width, inf as first component) judged only if accepted.", "3 C02"),
     "C03": ("explicit-state BFS to fixpoint over the real Tdf object on a real file vs. independent parser",
             "All reachable file states for small tables (every op applied in every state, incl. full tables, opaque "
-            "blocks, N=14) are parsed independently and checked for structural soundness.", "3 C03"),
+            "blocks, N=14) are parsed independently and checked for structural soundness; every removal order and every add / replace / setter attempt on files with a hole "
+            "in the table.", "3 C03"),
     "C04": ("explicit-state BFS to fixpoint; per-record comparison with a reference model of the history",
             "Same state space as C03; every live record (payload, format, comment, dates) and every block read is "
             "compared with the reference model after every transition.", "3 C04"),
     "C05": ("exhaustive mask enumeration on the real codec x allocator poisons, independent run-table parser",
             "All 2^n masks (n<=8 quick, <=13 thorough), complete <=1/<=2-run families on long tracks, independent masks "
-            "on 2-3 items; run table well-formedness and NaN-exactly-on-gaps under every allocator state.", "3 C05"),
+            "on 2-3 items, present frames with NaN components, 4 memory layouts; run table well-formedness and NaN-exactly-on-gaps under "
+            "every allocator state from 4 byte sources; items of another frame count through every hand-over path (if accepted).", "3 C05"),
     "C06": ("bounded-exhaustive differential check against an independent layout-driven encoder/decoder + golden capture digest",
             "Real writer bytes == reference encoder bytes for every builder state and for library-written files; "
             "reference-built bytes/files (with junk don't-care bytes) decode to the spec; capture agrees with the "
@@ -44,31 +47,37 @@ CHECKS = {
             "entry comment.", "3 C13"),
     "C14": ("exhaustive pair enumeration: each base block vs. itself / rebuilt / round trip / every single-site mutation",
             "Equality must be true for the three equal partners and false (both directions, also on decoded forms) for "
-            "every single-site mutation; 12 file pairs for Tdf equality.", "3 C14"),
+            "every single-site mutation; edge pairs (foreign full-width labels, other frame count); 12 file pairs plus stale-object "
+            "comparisons for Tdf equality.", "3 C14"),
     "C15": ("explicit-state BFS (depth-bounded) over real block objects vs. a list-of-pairs model",
             "All add/remove/bulk/assign/round-trip histories to depth 4 (6) on the three channel-mapped classes from "
             "empty, constructor-filled and decoded starts.", "3 C15"),
     "C16": ("explicit-state BFS to fixpoint over real block objects; all lists <=3 over {good, wrong-length, non-track}",
             "Every add / tracks-assignment menu entry in every reachable (class, frame count, start, track count) state; "
-            "refusals must leave the block untouched, acceptances install exactly the list.", "3 C16"),
+            "refusals must leave the block untouched, acceptances install exactly the list; 200 000-frame blocks off by one, decode "
+            "of bytes whose runs exceed the declared frames, zero-frame blocks.", "3 C16"),
     "C18": ("exhaustive enumeration of label tuples x key menu on real blocks vs. a plain list model",
-            "156 label tuples (duplicates, empty, case, blanks) x 4 classes x built/decoded x ~35 keys.", "3 C18"),
+            "156 label tuples (duplicates, empty, case, blanks) x 4 classes x built / decoded / decoded from foreign full-width "
+            "labels x ~35 keys, before and after every single edit.", "3 C18"),
     "C19": ("exhaustive enumeration of argument shapes/kinds per validated constructor argument; 27 000 coupled triples",
             "Every rank 0-3 shape with extents 0..4 x 6 dtypes + 9 non-array kinds for 22 arguments; accepted objects must "
             "not be mis-sized.", "3 C19"),
     "C20": ("explicit-state BFS (depth-bounded) over interleavings on 2-3 instances, states rebuilt by replay, fresh-instance probe",
             "All interleavings of construct / construct-with-list / decode / add / remove / edit over two (three) slots "
-            "per class; each slot must equal its own model after every step and a fresh instance must be empty.", "3 C20"),
+            "per class; each slot must equal its own model after every step and a fresh instance must be empty; plus the structural "
+            "form for all 9 kinds: no mutable object reachable from two separately created blocks.", "3 C20"),
     "C07": ("fault enumeration over an explicit-state BFS of the real container: every rejection cause x API x position in every reachable state, differential continuation",
             "Each failing request (duplicate, full, absent, bad label first/middle/last, unsupported format, wrong "
             "object, bad comment, hole) is executed in every reachable state of small configurations; sha256 unchanged, "
             "memory table == disk, and continuation ops agree with the twin history without the failed call.", "3 C07"),
     "C08": ("explicit-state BFS to fixpoint of the access-mode machine on one real Tdf object (replay-rebuilt states)",
             "All interleavings of allow_write / enter / exit / exit-with-exception / 8 mutators / 26 readers; bytes "
-            "change only for mutators in a write-enabled context; descriptors counted via /proc/self/fd.", "3 C08"),
+            "change only for mutators in a write-enabled context (also for requests that ask for what is already there); descriptors "
+            "counted via /proc/self/fd, also on well-formed files the library cannot read completely.", "3 C08"),
     "C17": ("exhaustive enumeration target kind x source state (from K) x op x path type, then one-op mutations of either side",
             "Tdf.new / copy against absent, TDF, non-TDF and empty targets from every source state up to depth 2 (3); "
-            "opening absent / empty / non-TDF / truncated files.", "3 C17"),
+            "opening absent / empty / non-TDF / truncated files and files with one signature byte flipped; symlinked sources; "
+            "Tdf.new as first creation of a process after other library activity.", "3 C17"),
 }
 NOT_YET = {}
 
